@@ -4,6 +4,7 @@ import (
 	"bytes"
 	"fmt"
 	"math/big"
+	"sort"
 	"strconv"
 	"strings"
 )
@@ -39,6 +40,7 @@ func (it *Interp) anyRange(tag string, lo, hi *big.Int, kind string) *Sym {
 		it.emit("(assert (<= " + s.T + " " + lit(hi) + "))")
 		s.Hi = hi
 	}
+	it.anySyms[len(it.anySyms)-1].Lo, it.anySyms[len(it.anySyms)-1].Hi = lo, hi
 	return s
 }
 
@@ -311,6 +313,21 @@ func registerMisc(P *Program) {
 	})
 	P.reg("bytes.IndexByte", func(it *Interp, a []Value) Value {
 		return big.NewInt(int64(bytes.IndexByte(it.concBytes(a[0]), byte(asBig(a[1]).Uint64()))))
+	})
+	P.reg("sort.Strings", func(it *Interp, a []Value) Value {
+		s := it.asSlice(a[0])
+		if s.Len > 1 {
+			el := s.Arr.V.(*ArrayV).Elems[s.Off : s.Off+s.Len]
+			strs := make([]string, len(el))
+			for i, e := range el {
+				strs[i] = e.(string)
+			}
+			sort.Strings(strs)
+			for i := range el {
+				el[i] = strs[i]
+			}
+		}
+		return nil
 	})
 	P.reg("strings.Compare", func(it *Interp, a []Value) Value {
 		return big.NewInt(int64(strings.Compare(a[0].(string), a[1].(string))))
